@@ -63,6 +63,11 @@ def gen_programs(rep, tier, families=None):
             out.append(p)
             # C04 / C06 hold "for either attribute spelling": length-of and checksum cells are also written with the long
             # type aliases (uint16 ...) and with the attribute in front of the declaration
+            if tag.startswith("scalar:") and not tag.startswith("scalar:char") and optsig(p["opts"]) == "le=,sp=,ap=,pl=,pc=":
+                q = dict(p)
+                q["spelling"] = {"*": {"long": True}}
+                q["id"] = "%s~long@%s" % (tag, optsig(p["opts"]))
+                out.append(q)
             if tag.startswith(("len:", "ck:")) and "notype" not in tag and (tier == "thorough" or optsig(p["opts"]) == "le=,sp=,ap=,pl=,pc="):
                 for suffix, spell in (("long", {"*": {"long": True}}), ("prefix", {"*": {"prefixattr": True}})):
                     q = dict(p)
@@ -134,6 +139,52 @@ def mc_read_machine(rep, tier):
         if "RefinesDecode" not in s.violated:
             raise Infra("ReadMachine with %s does not violate RefinesDecode: the specification is vacuous" % sw)
         rep.cov.setdefault("spec_sensitivity", {})[sw] = s.violated
+
+
+def apalache_len_patch(rep):
+    """UNBOUNDED statement of C04's design: Apalache discharges the inductive invariant of the back-patch discipline
+    (spec/LenPatchInd.tla: counts instead of bytes, any number of bytes before / between / inside / after) and refutes the
+    deviation MeasureFromPlaceholder.  Thorough tier only; skipped with a note when Apalache is not installed."""
+    import shutil
+    import tempfile
+    from common import run
+    exe = shutil.which("apalache-mc")
+    if not exe:
+        rep.assumptions.append("Apalache is not installed: the unbounded inductive-invariant check of LenPatchInd.tla was skipped")
+        return
+    tmp = tempfile.mkdtemp(prefix="verif-apa-")
+    try:
+        for f in ("LenPatchInd.tla", "LenPatchInd.cfg"):
+            shutil.copy(os.path.join(tlc.SPEC, f), tmp)
+        with open(os.path.join(tmp, "Dev.cfg"), "w") as fh:
+            fh.write(open(os.path.join(tlc.SPEC, "LenPatchInd.cfg")).read().replace("FALSE", "TRUE"))
+        out = {}
+        for name, cfg, init, inv, length, want in (("Init => IndInv", "LenPatchInd.cfg", "Init", "IndInv", 0, "NoError"),
+                                                   ("IndInv /\\ Next => IndInv'", "LenPatchInd.cfg", "IndInit", "IndInv", 1, "NoError"),
+                                                   ("IndInv => LenIsTargetBytes", "LenPatchInd.cfg", "IndInit", "LenIsTargetBytes", 0, "NoError"),
+                                                   ("deviation MeasureFromPlaceholder refuted", "Dev.cfg", "IndInit", "IndInv", 1, "Error")):
+            r = run([exe, "check", "--config=" + cfg, "--init=" + init, "--inv=" + inv, "--length=%d" % length,
+                     "--out-dir=" + os.path.join(tmp, "out"), "LenPatchInd.tla"], cwd=tmp, timeout=900)
+            got = "NoError" if "The outcome is: NoError" in r.stdout else "Error" if "The outcome is: Error" in r.stdout else "?"
+            if got != want:
+                raise Infra("Apalache obligation '%s' gave %s instead of %s\n%s" % (name, got, want, (r.stdout + r.stderr)[-800:]))
+            out[name] = {"outcome": got, "wall_s": round(r.wall, 1)}
+        rep.cov["apalache_inductive_invariant"] = out
+        # the same statement as a machine-checked PROOF (spec/proofs/LenPatchProof.tla), when the proof system is installed
+        tlapm = shutil.which("tlapm")
+        if tlapm:
+            shutil.copy(os.path.join(tlc.SPEC, "proofs", "LenPatchProof.tla"), tmp)
+            r = run([tlapm, "--threads", "8", "--cleanfp", "LenPatchProof.tla"], cwd=tmp, timeout=900)
+            txt = r.stdout + r.stderr
+            import re as _re
+            mm = _re.search(r"All (\d+) obligations proved", txt)
+            if not mm:
+                raise Infra("tlapm did not prove LenPatchProof.tla\n" + txt[-800:])
+            rep.cov["tlaps_proof"] = {"module": "LenPatchProof", "obligations_proved": int(mm.group(1)), "wall_s": round(r.wall, 1)}
+        else:
+            rep.assumptions.append("tlapm is not installed: the proof spec/proofs/LenPatchProof.tla was not re-checked")
+    finally:
+        shutil.rmtree(tmp, ignore_errors=True)
 
 
 _RESULTS = {}
@@ -225,6 +276,8 @@ def check_codec(pid, tier):
     mc_wire(rep, tier if pid in ("C01", "C02") else "quick")
     if pid == "C04" or (tier == "thorough" and pid in ("C01", "C06")):
         mc_wire_machine(rep, tier)
+    if pid == "C04" and tier == "thorough":
+        apalache_len_patch(rep)
     if pid == "C02":
         mc_read_machine(rep, tier)
     progs, results, tmp = run_family(tier, use, FOCUS[pid], rep)
